@@ -14,7 +14,10 @@ GEOMS = {
     'twoshank': lambda nc: ([[200.0 * (i % 2), 20.0 * (i // 2)] for i in range(nc)], [i % 2 for i in range(nc)]),
     'closeshanks': lambda nc: ([[10.0 * (i % 2), 20.0 * (i // 2)] for i in range(nc)], [i % 2 for i in range(nc)]),
     'square': lambda nc: ([[20.0 * (i % 2), 20.0 * (i // 2)] for i in range(nc)], [0] * nc),   # distance ties
+    # positions stored as unsigned integers (differences to channels left of / below the peak wrap around)
+    'zigzag_u32': lambda nc: ([[(i % 2) * 16.0, 10.0 * i] for i in range(nc)], [0] * nc),
 }
+POS_DTYPE = {'zigzag_u32': np.uint32}
 
 # inverse whitening matrices by name -> function nc -> list of lists (exact small rationals)
 def _wmi(name, nc):
@@ -90,7 +93,7 @@ def build_sym_model(pkg, nc, geom, wmi_name, n_closest, threshold=0, sparse_temp
     Bunch = pkg.load('phylib.utils._types').Bunch
     m = object.__new__(mod.TemplateModel)
     pos, shanks = GEOMS[geom](nc)
-    m.channel_positions = snp.asarray(np.array(pos, dtype=np.float64))
+    m.channel_positions = snp.asarray(np.array(pos, dtype=POS_DTYPE.get(geom, np.float64)))
     m.channel_shanks = snp.asarray(np.array(shanks, dtype=np.int32))
     m.n_channels = nc
     m.wmi = snp.asarray(_wmi(wmi_name, nc))
@@ -109,7 +112,7 @@ def build_real_model(nc, geom, wmi_name, n_closest, threshold=0, **attrs):
     from phylib.io import model as mod
     m = object.__new__(mod.TemplateModel)
     pos, shanks = GEOMS[geom](nc)
-    m.channel_positions = np.array(pos, dtype=np.float64)
+    m.channel_positions = np.array(pos, dtype=POS_DTYPE.get(geom, np.float64))
     m.channel_shanks = np.array(shanks, dtype=np.int32)
     m.n_channels = nc
     m.wmi = _wmi(wmi_name, nc)
